@@ -1,0 +1,177 @@
+//go:build verif
+
+package icmp
+
+import "golang.org/x/net/ipv4"
+
+// Contracts, spec functions and lemma harnesses for the deductive verifier in /verif (govc).
+// This file is compiled only with -tags verif; it adds no behaviour to the package.
+//
+// Property C60 (ICMP part): checksum never panics; for short buffers (bounded lemmas over the real
+// body) it is the folded little-endian 16-bit word sum and storing it makes the message RFC 1071
+// valid; Echo bodies survive Marshal/parseEcho; Message.Marshal (ICMPv4) puts type and code first
+// and stores the checksum it computed over the whole message with a zeroed checksum field.
+
+// ---------------------------------------------------------------------------
+// checksum
+
+// checksum: no panic for any length (automatic index obligations under the loop invariant). The
+// engine has no recursive spec functions, so the unbounded word sum cannot be named in a
+// postcondition; the result is pinned down for all buffers of up to 5 bytes (exact value) and of
+// 4..8 bytes (RFC 1071 validity) by the bounded lemmas below, which run the real body.
+//
+//@ func checksum(b) (r)
+//@   loop 1 invariant 0 <= i && i <= csumcv + 1 && i&1 == 0 && csumcv == len(b) - 1
+
+// fold16 is the end-around-carry fold (two steps) and complement of RFC 1071.
+//
+//@ pure
+func fold16(s uint32) uint16 {
+	s = s>>16 + s&0xffff
+	s = s + s>>16
+	return ^uint16(s)
+}
+
+// le16 is the 16-bit word checksum adds for the byte pair at off.
+//
+//@ pure
+func le16(b []byte, off int) uint32 {
+	return uint32(b[off+1])<<8 | uint32(b[off])
+}
+
+// lemmaChecksumSmall: the exact value for every buffer of 0..5 bytes (even and odd lengths, the
+// trailing odd byte counted as a low byte).
+//
+//@ lemma
+//@ bounded 4
+//@ usebody checksum
+//@ requires len(b) <= 5
+//@ ensures ok
+func lemmaChecksumSmall(b []byte) (ok bool) {
+	r := checksum(b)
+	switch len(b) {
+	case 0:
+		return r == 0xffff
+	case 1:
+		return r == fold16(uint32(b[0]))
+	case 2:
+		return r == fold16(le16(b, 0))
+	case 3:
+		return r == fold16(le16(b, 0)+uint32(b[2]))
+	case 4:
+		return r == fold16(le16(b, 0)+le16(b, 2))
+	}
+	return r == fold16(le16(b, 0)+le16(b, 2)+uint32(b[4]))
+}
+
+// lemmaChecksumValid: RFC 1071 validity for every message of 4..8 bytes whose checksum field
+// (bytes 2 and 3) is zero: after storing the checksum the way Message.Marshal does, the checksum
+// of the whole message is 0 (the receiver's verification succeeds).
+//
+//@ lemma
+//@ bounded 5
+//@ usebody checksum
+//@ requires 4 <= len(b) && len(b) <= 8 && b[2] == 0 && b[3] == 0
+//@ cases len(b) == 4 else len(b) == 5 else len(b) == 6 else len(b) == 7 else true
+//@ ensures ok
+//@ modifies elems(b)
+func lemmaChecksumValid(b []byte) (ok bool) {
+	s := checksum(b)
+	b[2] ^= byte(s)
+	b[3] ^= byte(s >> 8)
+	return checksum(b) == 0
+}
+
+// ---------------------------------------------------------------------------
+// Echo body
+
+//@ func (*Echo).Len(p, proto) (n)
+//@   ensures p == nil ==> n == 0
+//@   ensures p != nil ==> n == 4 + len(p.Data)
+//@
+//@ func (*Echo).Marshal(p, proto) (b, err)
+//@   requires p != nil && len(p.Data) <= 1<<32
+//@   ensures  err == nil && len(b) == 4 + len(p.Data) && fresh(b)
+//@   ensures  b[0] == byte(p.ID >> 8) && b[1] == byte(p.ID) && b[2] == byte(p.Seq >> 8) && b[3] == byte(p.Seq)
+//@   ensures  forall k int :: 0 <= k && k < len(p.Data) ==> b[4+k] == p.Data[k]
+//@   allocates
+//@
+//@ func parseEcho(proto, typ, b) (body, err)
+//@   ensures  len(b) < 4 <==> err != nil
+//@   ensures  err != nil ==> body == nil
+//@   ensures  err == nil ==> hastype(body, *Echo) && body.(*Echo) != nil && fresh(body.(*Echo))
+//@   ensures  err == nil ==> body.(*Echo).ID == int(b[0])<<8 | int(b[1]) && body.(*Echo).Seq == int(b[2])<<8 | int(b[3])
+//@   ensures  err == nil ==> len(body.(*Echo).Data) == len(b) - 4 && (forall k int :: 0 <= k && k < len(b) - 4 ==> body.(*Echo).Data[k] == b[4+k])
+//@   allocates
+
+// lemmaEchoRoundTrip: an Echo body with 16-bit identifier and sequence number and any data is
+// parsed back from its encoding with the same identifier, sequence number and data bytes.
+//
+//@ lemma
+//@ requires 0 <= id && id <= 0xffff && 0 <= seq && seq <= 0xffff
+//@ requires 0 <= j && j < len(data) && len(data) <= 1<<32
+//@ ensures ok
+func lemmaEchoRoundTrip(proto, id, seq int, data []byte, j int) (ok bool) {
+	p := &Echo{ID: id, Seq: seq, Data: data}
+	b, err := p.Marshal(proto)
+	if err != nil || len(b) != p.Len(proto) {
+		return false
+	}
+	body, err := parseEcho(proto, nil, b)
+	if err != nil {
+		return false
+	}
+	q := body.(*Echo)
+	return q.ID == id && q.Seq == seq && len(q.Data) == len(data) && q.Data[j] == data[j]
+}
+
+// lemmaEchoRoundTripEmpty: the same without data.
+//
+//@ lemma
+//@ requires 0 <= id && id <= 0xffff && 0 <= seq && seq <= 0xffff
+//@ ensures ok
+func lemmaEchoRoundTripEmpty(proto, id, seq int) (ok bool) {
+	p := &Echo{ID: id, Seq: seq}
+	b, err := p.Marshal(proto)
+	if err != nil {
+		return false
+	}
+	body, err := parseEcho(proto, nil, b)
+	if err != nil {
+		return false
+	}
+	q := body.(*Echo)
+	return q.ID == id && q.Seq == seq && len(q.Data) == 0
+}
+
+// ---------------------------------------------------------------------------
+// Message.Marshal / ParseMessage
+
+// Interface contracts (trusted): Type.Protocol is 1 for ipv4.ICMPType (proved for the
+// implementation in package ipv4, unit ipv4:(ICMPType).Protocol); a MessageBody reports some
+// length and marshals into some fresh byte slice without touching the message.
+//
+//@ func (Type).Protocol(t) (p)
+//@   ensures hastype(t, ipv4.ICMPType) ==> p == 1
+//@ func (MessageBody).Len(mb, proto) (n)
+//@ func (MessageBody).Marshal(mb, proto) (b, err)
+//@   allocates
+
+// For an ICMPv4 message: the checksum is computed (exactly once, ghost nsum) over the complete
+// message - type, code, two zero bytes, body - and its low byte is stored at offset 2, its high
+// byte at offset 3 (the little-endian word order checksum sums in); type and code are at 0 and 1.
+//
+//@ func (*Message).Marshal(m, psh) (out, err)
+//@   requires m != nil && hastype(m.Type, ipv4.ICMPType) && psh == nil
+//@   ghost nsum += 1 at call checksum
+//@   ghost cs += $r0 after call checksum
+//@   assert at call checksum: len($b) >= 4 && $b[0] == byte(m.Type.(ipv4.ICMPType)) && $b[1] == byte(m.Code) && $b[2] == 0 && $b[3] == 0
+//@   ensures  err == nil ==> ghost(nsum) == 1 && len(out) >= 4 && out[0] == byte(m.Type.(ipv4.ICMPType)) && out[1] == byte(m.Code)
+//@   ensures  err == nil ==> out[2] == byte(ghost(cs)) && out[3] == byte(ghost(cs) >> 8)
+//@   allocates
+
+// ParseMessage is not under contract: it looks its body parser up in a map keyed by the interface
+// type icmp.Type, which the engine does not support ("map key type golang.org/x/net/icmp.Type not
+// supported").
+
+var _ ipv4.ICMPType
